@@ -13,7 +13,15 @@ ASSUME = ["'wired to' is read as a planar obstruction (DESIGN 5/C05); a refusal 
 def run(tier, seed, t0):
     cov, rej = _diagapi.run("C05", "J05", tier, seed, t0, invariants=["InvWellTyped", "InvInterchange"],
                             drift=True, families=True)
-    return core.finish("C05", tier, seed, LEVEL, cov, rej, t0, ASSUME)
+    # the two-generator machine: effects directly followed by states at the same offset (the pairs on which the two
+    # preferences differ), every diagram of up to three boxes and a sample of the deeper ones
+    covt, rejt = _diagapi.run("C05", "J05", tier, seed, t0, cls="tie", invariants=["InvWellTyped", "InvInterchange"])
+    cov["tie_machine"] = {k: covt[k] for k in ("states", "transitions", "traces_validated_against_impl", "model", "replay",
+                                               "verdicts_by_clause", "canary")}
+    cov["states"] += covt["states"]
+    cov["transitions"] += covt["transitions"]
+    cov["traces_validated_against_impl"] += covt["traces_validated_against_impl"]
+    return core.finish("C05", tier, seed, LEVEL, cov, rej + rejt, t0, ASSUME)
 
 
 def replay(path):
